@@ -115,7 +115,79 @@ class ProxyGetitem(Contract):
                  z3.ForAll([j], z3.Implies(z3.And(j >= 0, j < n), result.sel(j) == g.data.sel(g.bm.sel(pos(j))))))]
 
 
+_prev_empty = models._MODELS[np.empty]
+
+
+def _np_empty_F(interp, shape, dtype=float, **kw):
+    """np.empty of a float array in units that keep float data in the datatype F (finite | NaN | +-Inf)"""
+    if getattr(getattr(interp.cur_frame, "unit", None), "float_arrays_F7", False) \
+            and (dtype is float or dtype == np.dtype("float64")):
+        n = shape[0] if isinstance(shape, tuple) else shape
+        r = interp.ctx.arr("empty", "F", n=to_z3(n), dtype=np.dtype("float64"))
+        r.item_shape = ()
+        return r
+    return _prev_empty(interp, shape, dtype=dtype, **kw)
+
+
+models._MODELS[np.empty] = _np_empty_F
+
+
+class ProxyArray(ProxyGetitem):
+    float_arrays_F7 = True
+
+    """BasinProxyFeature.__array__(dtype) of a scalar feature -- representation invariant of the proxy: `_cache` is
+    None or holds exactly origin[basinmap] (the origin's values, whatever conversion a caller asked for).  The
+    call keeps the invariant, and without a requested dtype it returns origin[basinmap]."""
+    qualname = "BasinProxyFeature.__array__"
+    params = ("self", "dtype")
+    inline = set()
+
+    def __init__(self, dtype, cached):
+        ProxyGetitem.__init__(self, True, "all")
+        self.dtype, self.cached = dtype, cached
+        self.name = (f"BasinProxyFeature.__array__[scalar, dtype={dtype}, "
+                     f"{'cache filled' if cached else 'cache empty'}]")
+        self.loops = {"(ii, idx) in enumerate(self.basinmap)": LoopSpec(inv=self.inv_arr, modifies=lambda ctx, v: [v.out_arr])}
+
+    def inv_arr(self, ctx, v):
+        g = self._g
+        out = v.out_arr
+        j = z3.Int("j!ia")
+        return [("the output has one slot per event of the map", out.n == g.bm.n),
+                ("slots filled so far hold the origin events the map points to",
+                 z3.ForAll([j], z3.Implies(z3.And(j >= 0, j < v.it), out.sel(j) == g.data.sel(g.bm.sel(j)))))]
+
+    def mapped(self, ctx, arr):
+        g = self._g
+        j = z3.Int("j!c")
+        return z3.And(arr.n == g.bm.n, z3.ForAll([j], z3.Implies(z3.And(j >= 0, j < g.bm.n),
+                                                                 arr.sel(j) == g.data.sel(g.bm.sel(j)))))
+
+    def inputs(self, ctx):
+        d = ProxyGetitem.inputs(self, ctx)
+        self_ = d["self"]
+        if self.cached:
+            c = ctx.arr("cache", "F", n=self._g.bm.n, dtype=np.dtype("float64"))
+            c.item_shape = ()
+            c.writeable = False
+            ctx.assume(self.mapped(ctx, c))
+            self_.fields["_cache"] = c
+        self._self = self_
+        return {"self": self_, "dtype": None if self.dtype == "None" else np.dtype(self.dtype)}
+
+    def ensures(self, ctx, old, a, result):
+        c = self._self.fields["_cache"]
+        posts = [("the cache is empty or holds exactly origin[basinmap] (values of the origin, unconverted)",
+                  z3.BoolVal(True) if c is None else (self.mapped(ctx, c) if isinstance(c, SArr) and c.kind == "F"
+                                                       else z3.BoolVal(False)))]
+        if self.dtype == "None":
+            posts.append(("without a requested dtype the result is origin[basinmap]",
+                          self.mapped(ctx, result) if isinstance(result, SArr) else z3.BoolVal(False)))
+        return posts
+
+
 UNITS = [ProxyGetitem(s, a) for s in (True, False) for a in ("int", "slice", "all", "array", "mask")]
+UNITS += [ProxyArray(dt, False) for dt in ("None", "int64", "float32")] + [ProxyArray("None", True)]
 TRUSTED = [OriginFeat("OriginFeature.__getitem__")]
 TRUSTED_BASE = ["numpy fancy / boolean indexing (N-FANCY, N-WHERE, N-MASK)", "opaque event payloads",
                 "np.empty returns an array of the requested length with unspecified content"]
@@ -257,7 +329,7 @@ class ExportBasins(C02.ExportHdf5):
 
     def __init__(self, source, filtered):
         self.source = source
-        C02.ExportHdf5.__init__(self, "hierarchy" if source == "hierarchy" else "hdf5", filtered)
+        C02.ExportHdf5.__init__(self, "hierarchy" if source.startswith("hierarchy") else "hdf5", filtered)
         self.name = f"Export.hdf5[basins, source {source}, {'filtered' if filtered else 'unfiltered'}]"
         self.callees.update({"map_indices_child2root": C2R(), "DS.get_root_parent": RootParent(),
                              "BasinObj.as_dict": AsDict()})
@@ -277,9 +349,24 @@ class ExportBasins(C02.ExportHdf5):
                                                "basin_locs": ["/data/raw.rtdc"], "basin_descr": None,
                                                "basin_feats": ["image"], "basin_map": orig_map}})
             ds.fields["basins"] = [b]
-        if self.source == "hierarchy":
+        if self.source.startswith("hierarchy"):
             root = ctx.obj("DS", {"format": "hdf5", "path": pathlib.Path("/data/root.rtdc")}, name="root")
             ds.fields["_root"] = root
+        if self.source in ("hierarchy+same basin", "hierarchy+mapped basin"):
+            # a basin of the root parent (RTDC_Hierarchy.basins hands out the root's basins): it
+            # enumerates the events of the root, not those of the child
+            R = ctx.int("N_root", lo=0, inp=True)
+            up_map = ctx.arr("root_basin_map", "int", n=R.e, inp=True, dtype=np.dtype("uint64"))
+            up_map.item_shape = ()
+            g.up_map = SArr(up_map.n, up_map.a, "int")
+            # root indices of child events are events of the root
+            kk = z3.Int("k!r")
+            ctx.assume(z3.ForAll([kk], z3.Implies(z3.And(kk >= 0, kk < g.N.e), z3.And(root_of(kk) >= 0, root_of(kk) < R.e))))
+            dct = {"basin_name": "raw", "basin_type": "file", "basin_format": "hdf5", "basin_locs": ["/data/raw.rtdc"],
+                   "basin_descr": None, "basin_feats": ["image"]}
+            if self.source == "hierarchy+mapped basin":
+                dct["basin_map"] = up_map
+            ds.fields["basins"] = [ctx.obj("BasinObj", {"_dict": dct})]
         return args
 
     def ensures(self, ctx, old, a, result):
@@ -296,13 +383,13 @@ class ExportBasins(C02.ExportHdf5):
         if self.filtered:
             ctx.assume(models.where_ext(fi, g.filt, mask))
         j = z3.Int("j!b")
-        want_n = 2 if self.source == "hdf5+mapped basin" else 1
+        want_n = 2 if "+" in self.source else 1
         posts.append(("one basin definition per basin of the source plus one for the source itself",
                       z3.BoolVal(len(recs) == want_n and all(r.get("verify") is False for r in recs))))
         if len(recs) != want_n:
             return posts
         src = recs[-1]
-        where = "/data/root.rtdc" if self.source == "hierarchy" else "/data/src.rtdc"
+        where = "/data/root.rtdc" if self.source.startswith("hierarchy") else "/data/src.rtdc"
         posts.append(("the source (root file for a hierarchy child) is a local 'file' basin: absolute path + bare file name",
                       z3.BoolVal(src.get("basin_type") == "file" and src.get("basin_format") == "hdf5"
                                  and [str(p) for p in src.get("basin_locs", [])] == [where, where.split("/")[-1]])))
@@ -313,7 +400,7 @@ class ExportBasins(C02.ExportHdf5):
                 return (what, z3.BoolVal(False))
             return (what, z3.And(bm.n == S.n, z3.ForAll([j], z3.Implies(z3.And(j >= 0, j < S.n),
                                                                         bm.sel(j) == fn(S.sel(j))))))
-        if self.source == "hierarchy":
+        if self.source.startswith("hierarchy"):
             if self.filtered:
                 posts.append(map_is(src, lambda t: root_of(t), "map: exported event j -> root event of the j-th selected child event"))
             else:
@@ -323,6 +410,16 @@ class ExportBasins(C02.ExportHdf5):
         else:
             posts.append(("an unfiltered export of a file refers to it with the identity mapping",
                           z3.BoolVal(src.get("basin_map") is None)))
+        if self.source == "hierarchy+same basin":
+            posts.append(map_is(recs[0], lambda t: root_of(t),
+                                "basin of the root parent: exported event j -> root event of the j-th exported child event"))
+        if self.source == "hierarchy+mapped basin":
+            posts.append(map_is(recs[0], lambda t: g.up_map.sel(root_of(t)),
+                                "basin of the root parent: new map == the root's map composed with the root indices of "
+                                "the exported child events"))
+        if self.source.startswith("hierarchy+"):
+            posts.append(("basin of the root parent keeps its locations and features",
+                          z3.BoolVal(recs[0].get("basin_locs") == ["/data/raw.rtdc"] and recs[0].get("basin_feats") == ["image"])))
         if self.source == "hdf5+mapped basin":
             b0 = recs[0]
             if self.filtered:
@@ -337,7 +434,8 @@ class ExportBasins(C02.ExportHdf5):
         return posts
 
 
-UNITS += [ExportBasins(s, f) for s in ("hdf5", "hdf5+mapped basin", "hierarchy") for f in (True, False)]
+UNITS += [ExportBasins(s, f) for s in ("hdf5", "hdf5+mapped basin", "hierarchy", "hierarchy+same basin",
+                                        "hierarchy+mapped basin") for f in (True, False)]
 TRUSTED += [RootParent(), AsDict()]
 
 
@@ -359,6 +457,19 @@ def _replay_proxy(unit_name, inp):
             if got.shape != np.asarray(want).shape or not np.array_equal(got, want):
                 return {"failed": True, "detail": f"BasinProxyFeature{nm} with basinmap {bm.tolist()} is not "
                                                   f"origin[basinmap]{nm} ({'scalar' if scalar else 'image-like'} feature)"}
+    if scalar:
+        # a typed conversion must not change what later reads return
+        bm = np.array([5, 2, 2, 8, 0, 7, 1], dtype=np.uint64)
+        for dt in (int, np.float32):
+            pf = BasinProxyFeature(feat_obj=origin * 100, basinmap=bm)
+            np.asarray(pf, dtype=dt)
+            want = (origin * 100)[bm.astype(int)]
+            for nm, got in (("np.asarray(proxy)", np.asarray(pf)), ("proxy[:]", np.asarray(pf[:])), ("proxy[2]", np.asarray(pf[2]))):
+                w_ = want if nm != "proxy[2]" else want[2]
+                if not np.array_equal(got, w_):
+                    return {"failed": True, "detail": f"after np.asarray(proxy, dtype={np.dtype(dt).name}), {nm} returns "
+                                                      f"{np.asarray(got).ravel()[:3].tolist()} instead of the origin's "
+                                                      f"{np.asarray(w_).ravel()[:3].tolist()}"}
     return {"failed": False, "detail": "proxy access equals origin[basinmap[idx]]"}
 
 
@@ -399,6 +510,9 @@ def replay(unit_name, inp, obligation=""):
     import dclab
     import dclab.rtdc_dataset.writer as w
     import dclab.rtdc_dataset.export as e
+    if "hierarchy+" in unit_name:
+        # the child of a file that has basins itself (second export of the chain)
+        inp = dict(inp, hierarchy=True, hierarchy_at=1, depth=max(2, int(inp.get("depth", 2))))
     n = int(inp.get("n", 12))
     seed = int(inp.get("seed", 1))
     rng = np.random.RandomState(seed)
@@ -423,7 +537,7 @@ def replay(unit_name, inp, obligation=""):
                     filt = rng.rand(len(ds)) > 0.35
                     if not filt.any():
                         filt[0] = True
-                    use_child = bool(inp.get("hierarchy")) and depth == 0
+                    use_child = bool(inp.get("hierarchy")) and depth == int(inp.get("hierarchy_at", 0))
                     if use_child:
                         ds.filter.manual[:] = filt
                         ds.apply_filter()
@@ -441,7 +555,12 @@ def replay(unit_name, inp, obligation=""):
                         ids = ids[filt]
                         exp_ds = ds
                     nxt = td / "a" / f"exp{depth}.rtdc"
-                    exp_ds.export.hdf5(nxt, features=["deform"], filtered=True, basins=True)
+                    try:
+                        exp_ds.export.hdf5(nxt, features=["deform"], filtered=True, basins=True)
+                    except Exception as ex:
+                        return {"failed": True, "detail": f"export {depth + 1} of the chain (from a "
+                                                          f"{'hierarchy child' if use_child else 'file'}, with basins) raises "
+                                                          f"{type(ex).__name__}: {str(ex)[:120]}"}
                 cur = nxt
             if inp.get("move"):
                 shutil.move(str(td / "a"), str(td / "b"))
@@ -478,3 +597,5 @@ def bounded_inputs(unit_name, rng):
             for hier in (False, True):
                 for move in (False, True):
                     yield {"n": 14, "seed": seed, "depth": depth, "hierarchy": hier, "move": move}
+                    if hier and depth > 1:
+                        yield {"n": 14, "seed": seed, "depth": depth, "hierarchy": hier, "move": move, "hierarchy_at": 1}
